@@ -207,6 +207,19 @@ func (x *Exec) unknownCall(c *CallCtx) []Outcome {
 			// objects/contexts do not contribute
 		}
 	}
+	// an external function may write through every pointer it is handed (json.Unmarshal(data, &v), Decode(&v), ...):
+	// the pointed-to cells get arbitrary values of their type
+	for _, a := range c.args {
+		if iv, ok := a.(IfaceV); ok {
+			a = iv.V
+		}
+		if p, ok := a.(PtrV); ok {
+			if tv, isTV := c.st.cells[p.Cell].(TV); isTV && tv.Ty != nil {
+				c.st.cells[p.Cell] = x.freshTV("extwr", tv.Ty, c.st)
+				x.warn("unmodelled external call %s may write through its pointer argument: target havocked", c.name)
+			}
+		}
+	}
 	var vals []Value
 	for i := 0; i < sig.Results().Len(); i++ {
 		rt := sig.Results().At(i).Type()
